@@ -400,7 +400,11 @@ var exception_catch(var args) {
   ** same kind twice, and a Tuple finds the successor of an item by identity */
   size_t nargs = len(args);
   for (size_t i = 0; i < nargs; i++) {
-    if (eq(get(args, $I(i)), e->obj)) {
+    /* Objects of different types are different kinds: no comparison is
+    ** asked to decide that (it may itself raise for unlike operands) */
+    var arg = get(args, $I(i));
+    if (arg is e->obj
+    or (type_of(arg) is type_of(e->obj) and eq(arg, e->obj))) {
       e->active = false;
       return e->obj;
     }
